@@ -1,6 +1,8 @@
 """C15 — closed-form trainers: theorems (Props/C15.lean) + correspondence K-C15 between
 Model/Trainers.lean (driver drv_c15, exact `Rat` arithmetic) and the real Shark trainers
-(harness/c15.cpp, harness/c15b.cpp, harness/c15c.cpp) on integer datasets with explicit batch partitions.
+(harness/c15.cpp, harness/c15b.cpp, harness/c15c.cpp) on integer / dyadic datasets with explicit batch partitions:
+single ops on fresh objects and histories `op ; op ; ...` executed on the SAME trainer / model / output objects
+(every step must give what fresh objects give).
 
 Protocol (two passes, see lean/Driver/C15.lean): the harness prints what the real
 trainer returned (doubles exactly, FE_INEXACT flag per call, `!oracle` tags of the
@@ -31,27 +33,69 @@ MANIFEST = dict(
         "LDA: the matrix assembled from second moments is the pooled within-class covariance (lda_pooled_covariance, wlda_pooled_covariance for positive weights); with z_c*C = m_c the installed linear discriminant ranks classes exactly like the Gaussian log-posterior with shared covariance C "
         "(lda_bayes_rule_partial: excludes singular covariances whose range misses the class means, witness lda_partial_witness), statistics batch independent (lda_batch_independent); weighted LDA statistics are invariant under scaling all weights "
         "(weights_scale_invariant); FisherLDA's global mean sum_c n_c m_c / n is the mean of the inputs (fisher_mean; the pinned source divides twice, F-C15-6). "
+        "Objects used more than once: the model follows remora's matrix::resize (the linear storage keeps its old numbers, Mat.resize) and proves that "
+        "meanvar into an output matrix of any previous shape and content yields the covariance (meanvar_output_reuse), that PCA::setData leaves the same "
+        "decomposition on every object whatever it decomposed before, in either branch (pca_setData_history_independent, pca_reused_object_models, "
+        "pca_small_sample_object), and that the clear() of the small-sample branch is necessary (witness pca_setData_without_clear_depends_on_history). "
         "The model (Model/Trainers.lean) is tied to the real trainers on every run by a differential correspondence on integer datasets with explicit "
-        "batch partitions: values the model determines are compared EXACTLY when FE_INEXACT stayed clear during the Shark call and with relative "
+        "batch partitions, single ops on fresh objects AND histories `op ; op ; ...` of 2-4 ops executed on the SAME trainer, model and output objects "
+        "(PCA object through setData / train / the data constructor with whitening, algorithm and number of components changed in between; "
+        "LinearRegression, LDA (unweighted and weighted mixed) and FisherLDA re-configured through their setters or setParameterVector; one Normalizer "
+        "model re-trained with and without offset; one LinearModel shared by regression, whitening and ZCA; meanvar output arguments that arrive "
+        "filled; new data of another shape incl. more features than points after fewer and vice versa, the same data under another configuration, "
+        "identical repetition) -- every step of a history is judged against the model of that step alone, i.e. must equal what fresh objects give, and "
+        "the harness additionally compares bit for bit with freshly constructed objects (oracle tag reuse-dependent); data values are integers or dyadic "
+        "fractions (`op@s`: table * 2^-s, s <= 5) so that truncation to integers is visible; values the model determines are compared EXACTLY when FE_INEXACT stayed clear during the Shark call and with relative "
         "tolerance 1e-11 otherwise; results behind sqrt / the pivoted Cholesky solver / the eigen-solver are checked against their specification "
         "(A*beta = X^T L, s*s = var, W*Cov*W^T = t*I, Cov*v = lambda*v, V^T V = I, z*Cov = m) in exact rational arithmetic on the returned doubles "
         "(relative 1e-9); plus an independent plain-loop property oracle in the harness (gradient, output mean/variance/range/covariance, "
-        "orthonormality, projection, batch-partition and weight-scale invariance)."),
+        "orthonormality, projection, batch-partition invariance of every trainer (whitening: of W^T W, the factor itself is not unique; regular covariances only), "
+        "weight-scale invariance, variance()/covariance() wrappers)."),
   note=TRUST + "NOT proved: the specifications of sqrt/log/eigen-solver/pivoted Cholesky (hypotheses, checked at "
        "run time on the returned values), that ZCA's Q*D^(-1/2)*Q^T satisfies the factor specification, lda_bayes_rule (LDA is covered by the "
        "correspondence only: class means, pooled covariance, solve specification, bias vs log prior), FisherLDA (not modelled), floating-point rounding. "
-       "PCA whitening and toleranced comparisons are behind the eigen-solver (toleranced mode). Findings F-C15-1..8 (findings_proposed/C15.md): the check "
+       "PCA whitening and toleranced comparisons are behind the eigen-solver (toleranced mode). The history-independence theorems are about the object "
+       "model (PcaObject, meanvarInto); for the other trainers (no state besides their configuration) and for the models (setStructure overwrites) "
+       "independence of earlier use is checked by the correspondence on generated histories only (generator-bounded: 2-4 steps). Large-magnitude data "
+       "(2^6 and more) together with tiny regularisation is not generated: the rounding error of the ill-conditioned solves exceeds the comparison tolerances. Findings F-C15-1..8 (findings_proposed/C15.md): the check "
        "reports VIOLATION on the unpatched tree and is green on a tree with findings_proposed/C15.patch applied.",
   technique="Lean 4 proofs over exact rational arithmetic (all sizes, dimensions, batch partitions) + differential correspondence with the C++ trainers (ASan/UBSan, FE_INEXACT-gated exact comparison)",
   design="§6 C15")
 
 FINISH = dict(level="proof",
               rule="one op = one trainer call on an integer dataset with an explicit batch partition (SplitMix64 stream): "
-                   "meanvar, unitvar, unitint, linreg, whiten, zca, pca, lda, wlda, fisher; a case is non-trivial if it has >1 batch, "
-                   "a constant column, rank deficiency or d>n; distinct = distinct op text")
+                   "meanvar, unitvar, unitint, linreg, whiten, zca, pca/pcat/pcac (setData, train, constructor), lda, wlda, fisher, optionally `@s` "
+                   "(dyadic fractions); a line is one op on fresh objects or a history `op ; op ; ...` on the same objects; a case is non-trivial if it "
+                   "is a history or has >1 batch, a constant column, rank deficiency or d>n; distinct = distinct line text")
 
 ENV = {"OPENBLAS_NUM_THREADS": "1", "OMP_NUM_THREADS": "1"}
 HARNESS_A_OPS = ("meanvar", "unitvar", "unitint", "linreg", "whiten", "zca")
+# families of ops whose steps share objects in a history `op ; op ; ...` (same harness executable, same Session members)
+FAMILIES = {"stat": ["meanvar"], "norm": ["unitvar", "unitvar", "unitint"], "lin": ["linreg", "linreg", "whiten", "zca"],
+            "pca": ["pca"], "lda": ["lda", "wlda"], "fisher": ["fisher"]}
+SEP = " ; "
+
+
+def split_steps(line):
+    return [x.strip() for x in line.split(";") if x.strip()]
+
+
+def opname(line):
+    """base name of the (first) op of a line: `pca@3 ...` -> pca"""
+    t = line.split()
+    return t[0].split("@")[0] if t else ""
+
+
+def gen_scaled(r, ctx, line):
+    """value class: the integer table stands for dyadic fractions (`op@s`: every data value times 2^-s); everything stays
+    exactly representable and the model computes with the same rationals.  Only moderate s: together with the unscaled
+    constants (bias column of ones, regularisation) large |s| gives condition numbers whose rounding error exceeds the
+    comparison tolerances (seen with s = -6 and lambda = 2^-10 on rank-deficient data)"""
+    s = r.choice([0, 0, 0, 0, 1, 2, 3, 5])
+    ctx.hist("value_scale_log2", -s)
+    if s == 0: return line
+    t = line.split(" ", 1)
+    return f"{t[0]}@{s} {t[1]}"
 
 
 # --------------------------------------------------------------------------- generators
@@ -121,7 +165,8 @@ def table(n, d, part, rows):
     return f"{n} {d} {len(part)} " + " ".join(map(str, part)) + " " + " ".join(str(v) for row in rows for v in row)
 
 
-def gen_case(r, ctx, op, part=None, n=None):
+def gen_case(r, ctx, op, part=None, n=None, hist=False):
+    """one op line; hist: the op is a step of a history (shape classes that make re-used objects change size are favoured)"""
     if op in ("meanvar", "unitvar", "unitint"):
         n, d, rows = gen_matrix(r, ctx, n=n)
         if op != "meanvar" and n == 1 and r.chance(3, 4): n, d, rows = gen_matrix(r, ctx, n=r.range(2, 8))
@@ -152,7 +197,12 @@ def gen_case(r, ctx, op, part=None, n=None):
     if op == "pca":
         n, d, rows = gen_matrix(r, ctx, n=n)
         if n == 1 and r.chance(5, 6): n, d, rows = gen_matrix(r, ctx, n=r.range(2, 9))
-        alg = r.choice([0, 0, 1, 2])
+        if hist and d <= n and r.chance(1, 3):                  # more features than points
+            n, d, rows = gen_matrix(r, ctx, n=n, d=n + r.range(1, 3))
+        # entry point: setData + encoder/decoder, train(model), or the constructor PCA(data, whitening) (algorithm AUTO only)
+        name = r.choice(["pca", "pca", "pca", "pcat", "pcat", "pcac"])
+        ctx.hist("pca_entry", name)
+        alg = 0 if name == "pcac" else r.choice([0, 0, 1, 2])
         small = alg == 2 or (alg == 0 and d > n)
         avail = n if small else d
         m = r.choice([0, 0, 1, avail, r.range(1, max(1, avail))])
@@ -160,7 +210,7 @@ def gen_case(r, ctx, op, part=None, n=None):
         wh = 1 if r.chance(1, 4) else 0
         ctx.hist("pca_branch", "small-sample" if small else "standard")
         part = part or gen_partition(r, n)
-        return f"pca {wh} {alg} {m} " + table(n, d, part, rows)
+        return f"{name} {wh} {alg} {m} " + table(n, d, part, rows)
     if op in ("lda", "wlda"):
         classes = r.choice([2, 2, 3, 4])
         n, d, rows = gen_matrix(r, ctx, n=n or r.choice([classes, classes + 1, classes + 2, 6, 8, 9, 12, 16]), allow_wide=r.chance(1, 8))
@@ -198,18 +248,95 @@ def gen_all_partitions(r, ctx, op):
     return [build_op(head, d, p, rows) for p in comps]
 
 
+def retable(new, old):
+    """the op `new` (configuration) on the dataset of the op `old`, if the columns are compatible; else `new`"""
+    try:
+        hn, nn, dn, en, sn, rn = parse_op(new)
+        ho, no, do, eo, so, ro = parse_op(old)
+    except Exception:
+        return new
+    rows = [list(x) for x in ro]
+    full, hn[0], ho[0] = hn[0], hn[0].split("@")[0], ho[0].split("@")[0]
+    try:
+        return _retable(hn, ho, no, do, en, eo, so, rows, full)
+    except Exception:
+        return new
+
+
+def _retable(hn, ho, no, do, en, eo, so, rows, full):
+    if hn[0] == "linreg" and ho[0] == "linreg":
+        hn = hn[:3] + [ho[3]]
+    elif hn[0] == "lda" and ho[0] == "wlda":
+        rows = [x[:do + 1] for x in rows]
+    elif hn[0] == "wlda" and ho[0] == "lda":
+        rows = [x + [1 + (i * 7) % 3] for i, x in enumerate(rows)]
+    elif en != eo:
+        raise ValueError("incompatible columns")
+    if hn[0] in ("pca", "pcat", "pcac"):
+        alg, m = int(hn[2]), int(hn[3])
+        avail = no if (alg == 2 or (alg == 0 and do > no)) else do
+        hn = hn[:3] + [str(min(m, avail))]
+    if hn[0] == "fisher":
+        hn = hn[:2] + [str(min(int(hn[2]), do))]
+    return build_op([full] + hn[1:], do, so, rows)
+
+
+def gen_history(r, ctx, fam):
+    """2-4 ops of one family executed on the same trainer / model objects: new data of another shape, the same data
+    under another configuration, or an identical repetition"""
+    k = r.choice([2, 2, 2, 3, 3, 4])
+    steps = []
+    for i in range(k):
+        s = gen_scaled(r, ctx, gen_case(r, ctx, r.choice(FAMILIES[fam]), hist=True))
+        kind = "new-data"
+        if steps:
+            x = r.below(8)
+            if x < 2:
+                t = retable(s, steps[-1])
+                if t != s: s, kind = t, "same-data-new-configuration"
+            elif x == 2:
+                s, kind = steps[-1], "identical-repetition"
+        if steps and kind == "new-data":
+            try:
+                a, b = parse_op(steps[-1]), parse_op(s)
+                kind = "new-data-" + ("same-shape" if (a[1], a[2]) == (b[1], b[2]) else
+                                      "wide-after-tall" if (b[2] > b[1] and a[2] <= a[1]) else
+                                      "tall-after-wide" if (b[2] <= b[1] and a[2] > a[1]) else
+                                      "larger" if b[1] * b[2] > a[1] * a[2] else "smaller")
+            except Exception:
+                pass
+        if steps: ctx.hist("history_transitions", f"{fam}:{kind}")
+        steps.append(s)
+    ctx.hist("history_length", k)
+    return SEP.join(steps)
+
+
 # --------------------------------------------------------------------------- running
 def strip_oracle(line):
     return line.split(" !oracle")[0]
 
 
 class Res:
+    """result of one line (an op or a history); `steps` holds one Res per step of a history"""
     def __init__(self, op):
         self.op, self.impl, self.model, self.oracle, self.crash, self.stderr = op, "", "", [], False, ""
+        self.steps = []
 
     @property
     def ok(self):
-        return not self.crash and not self.oracle and self.model.startswith("ok ")
+        if self.crash or self.oracle: return False
+        ms = self.model.split(" ;; ")
+        return len(ms) == len(split_steps(self.op)) and all(m.startswith("ok ") for m in ms)
+
+    def finish(self):
+        """split a history into per-step results"""
+        ops = split_steps(self.op)
+        impl, model = self.impl.split(" ;; "), self.model.split(" ;; ")
+        self.steps = []
+        if len(ops) > 1 and len(impl) == len(ops) and len(model) == len(ops):
+            for o, i, m in zip(ops, impl, model):
+                st = Res(o); st.impl, st.model, st.oracle = i, m, re.findall(r"!oracle (\S+)", i)
+                self.steps.append(st)
 
 
 def run_lines(ctx, exes, drv, lines, timeout=900):
@@ -219,8 +346,8 @@ def run_lines(ctx, exes, drv, lines, timeout=900):
     env.setdefault("UBSAN_OPTIONS", "print_stacktrace=1"); env.update(ENV)
     groups = {}
     for i, l in enumerate(lines):
-        op = l.split()[0] if l.split() else ""
-        groups.setdefault("a" if op in HARNESS_A_OPS else "c" if op == "fisher" else "b", []).append(i)
+        op = opname(l)
+        groups.setdefault("a" if op in HARNESS_A_OPS else "c" if op == "fisher" else "b", []).append(i)   # histories stay within one family
     for g, idx in groups.items():
         exe = exes[g]
         text = "\n".join(lines[i] for i in idx) + "\n"
@@ -239,11 +366,12 @@ def run_lines(ctx, exes, drv, lines, timeout=900):
                 res[i].stderr = err[-3000:] if k == len(out) else "(not reached: an earlier op crashed the harness)"
         if rc != 0 and len(out) >= len(idx):
             res[idx[-1]].crash, res[idx[-1]].stderr = True, err[-3000:]
-    dl = "\n".join(f"{r.op} || {strip_oracle(r.impl)}" if r.impl else r.op for r in res) + "\n"
+    dl = "\n".join(f"{r.op} || {' ;; '.join(strip_oracle(x) for x in r.impl.split(' ;; '))}" if r.impl else r.op for r in res) + "\n"
     p = subprocess.run([drv], input=dl, stdout=subprocess.PIPE, stderr=subprocess.PIPE, text=True, errors="replace", timeout=timeout)
     mo = p.stdout.splitlines()
     for i, r in enumerate(res):
         r.model = mo[i] if i < len(mo) else "FAIL driver produced no line: " + p.stderr[-300:]
+        r.finish()
     return res
 
 
@@ -263,8 +391,9 @@ def run_until_clean(ctx, exes, drv, lines):
 def parse_op(line):
     """-> (head tokens, n, d, extra, sizes, rows) of an op line"""
     t = line.split()
-    op = t[0]
-    nhead = {"meanvar": 1, "unitint": 1, "unitvar": 2, "linreg": 4, "whiten": 3, "zca": 3, "pca": 4, "lda": 3, "wlda": 3, "fisher": 3}[op]
+    op = t[0].split("@")[0]
+    nhead = {"meanvar": 1, "unitint": 1, "unitvar": 2, "linreg": 4, "whiten": 3, "zca": 3, "pca": 4, "pcat": 4, "pcac": 4,
+             "lda": 3, "wlda": 3, "fisher": 3}[op]
     head = t[:nhead]
     extra = int(t[3]) if op == "linreg" else 1 if op in ("lda", "fisher") else 2 if op == "wlda" else 0
     n, d, nb = int(t[nhead]), int(t[nhead + 1]), int(t[nhead + 2])
@@ -272,6 +401,7 @@ def parse_op(line):
     vals = [int(x) for x in t[nhead + 3 + nb:]]
     w = d + extra
     rows = [vals[i * w:(i + 1) * w] for i in range(n)]
+    if len(vals) != n * w or len(sizes) != nb: raise ValueError("malformed op " + line[:60])
     return head, n, d, extra, sizes, rows
 
 
@@ -280,10 +410,35 @@ def build_op(head, d, sizes, rows):
 
 
 def shrink(ctx, exes, drv, line, same):
-    """greedy data shrinking of one failing op line: fewer rows, one batch, fewer columns, smaller values"""
+    """shrink a failing line: drop steps of a history, then shrink the data of every remaining step"""
+    steps = split_steps(line)
+    if len(steps) <= 1:
+        return shrink_step(ctx, exes, drv, [], line, [], same)
     def fails(l):
         try:
             r = run_lines(ctx, exes, drv, [l], timeout=60)[0]
+        except Exception:
+            return False
+        return (not r.ok) and same(r)
+    changed = True
+    while changed and len(steps) > 1:
+        changed = False
+        for i in range(len(steps) - 1, -1, -1):
+            cand = steps[:i] + steps[i + 1:]
+            if fails(SEP.join(cand)):
+                steps, changed = cand, True
+                break
+    for i in range(len(steps)):
+        steps[i] = shrink_step(ctx, exes, drv, steps[:i], steps[i], steps[i + 1:], same, budget=80)
+    return SEP.join(steps)
+
+
+def shrink_step(ctx, exes, drv, before, line, after, same, budget=120):
+    """greedy data shrinking of one op (a step between the steps `before` and `after` of a history): fewer rows,
+    one batch, fewer columns, smaller values"""
+    def fails(l):
+        try:
+            r = run_lines(ctx, exes, drv, [SEP.join(before + [l] + after)], timeout=60)[0]
         except Exception:
             return False
         return (not r.ok) and same(r)
@@ -292,21 +447,23 @@ def shrink(ctx, exes, drv, line, same):
     except Exception:
         return line
     cur = line
-    budget = 120
     changed = True
     while changed and budget > 0:
         changed = False
         head, n, d, extra, sizes, rows = parse_op(cur)
         cands = []
+        if "@" in head[0]: cands.append(build_op([head[0].split("@")[0]] + head[1:], d, sizes, rows))
         if len(sizes) > 1: cands.append(build_op(head, d, [n], rows))
         for i in range(n):
             if n > 1:
                 rr = rows[:i] + rows[i + 1:]
                 cands.append(build_op(head, d, [n - 1], rr))
-        if head[0] not in ("lda", "wlda", "fisher"):
+        if opname(cur) not in ("lda", "wlda", "fisher"):
             for j in range(d):
                 if d > 1:
                     cands.append(build_op(head, d - 1, sizes, [r[:j] + r[j + 1:] for r in rows]))
+        if opname(cur) in ("pca", "pcat", "pcac") and head[3] != "0":
+            cands = [retable(c, c) for c in cands]                  # keep the number of components admissible
         for i in range(n):
             for j in range(len(rows[i])):
                 if rows[i][j] not in (0, 1):
@@ -322,7 +479,20 @@ def shrink(ctx, exes, drv, line, same):
 
 
 def classify(r):
-    op = r.op.split()[0]
+    """-> (key, what, concrete failing input found)"""
+    if len(split_steps(r.op)) > 1 and not r.crash:
+        for i, st in enumerate(r.steps):
+            if st.ok: continue
+            key, what, found = classify(st)
+            reuse = sorted({t for t in st.oracle if t.startswith("reuse-")})
+            if reuse:
+                op = opname(st.op)
+                return (f"reuse:{op}:{'+'.join(reuse)}",
+                        f"step {i + 1} of the history `{r.op}` ({op} on objects that were used before) does not give what freshly "
+                        f"constructed objects give ({reuse}); other oracle tags {sorted(set(st.oracle) - set(reuse))}; model says: {st.model[:300]}", True)
+            return key, what + f" [step {i + 1} of the history `{r.op}`]", found
+        return "mismatch:history:protocol", f"history `{r.op}`: {r.model[:300]}", False
+    op = opname(r.op)
     if op == "fisher" and r.crash and r.op.split()[2] == "0":
         return ("F-C15-8:fisherlda-default-dimension",
                 f"FisherLDA with the default subspace dimension (= number of classes) > input dimension reads past the eigenvector matrix: `{r.op}`", True)
@@ -336,16 +506,17 @@ def classify(r):
     if "zca-nonfinite" in r.oracle:
         return ("F-C15-2:zca-singular-covariance",
                 f"NormalizeComponentsZCA returns a non-finite model for data with singular covariance: `{r.op}`", True)
-    if op == "pca" and ("pca-nonfinite-direction" in r.oracle or "pca-not-orthonormal" in r.oracle) and r.op.split()[2] != "1":
+    if op in ("pca", "pcat", "pcac") and ("pca-nonfinite-direction" in r.oracle or "pca-not-orthonormal" in r.oracle) and r.op.split()[2] != "1":
         return ("F-C15-3:pca-small-sample-null-direction",
                 f"PCA (small-sample branch) normalises a direction without variance (0/0): `{r.op}` -> {r.oracle}", True)
-    if op == "pca" and "pca-nonfinite-model" in r.oracle and r.op.split()[1] == "1":
+    if op in ("pca", "pcat", "pcac") and "pca-nonfinite-model" in r.oracle and r.op.split()[1] == "1":
         return ("F-C15-3b:pca-whitening-zero-variance",
                 f"PCA encoder/decoder with whitening divide by sqrt(0) when all points coincide: `{r.op}`", True)
     if op == "fisher" and ("fisher-mean" in r.oracle or "fisherlda-mean" in r.model):
         return ("F-C15-6:fisherlda-mean-divided-twice",
                 f"FisherLDA::meanAndScatter divides the global mean by the number of inputs twice: `{r.op}` -> {r.model[:160]}", bool(r.oracle))
-    if op == "fisher" and "fisher-direction-not-stationary" in r.oracle:
+    # only the listed defect itself: any further oracle tag or a model mismatch on the same input is reported on its own
+    if op == "fisher" and set(r.oracle) == {"fisher-direction-not-stationary"} and r.model.startswith("ok "):
         return ("F-C15-7:fisherlda-nonsymmetric-eigenproblem",
                 f"FisherLDA feeds the non-symmetric Sw^-1*Sb to the symmetric eigen-solver; returned directions do not satisfy Sb*w = lambda*Sw*w: `{r.op}`", True)
     if op == "lda" and "lda-n-equals-classes" in r.model:
@@ -363,13 +534,13 @@ def correspond(ctx, name, exes, drv, lines, max_report=8):
     res = run_until_clean(ctx, exes, drv, lines)
     ctx.count("traces_validated_against_impl", len(lines))
     ctx.count("ops_compared", len(lines))
-    for r in res:
+    for r in [st for x in res for st in (x.steps or [x])]:
         m = re.match(r"ok exact=(\d+) tol=(\d+) rel=(\d+) tags=(\S*)", r.model)
         if m:
             ctx.count("values_compared_exactly", int(m.group(1)))
             ctx.count("values_compared_with_tolerance", int(m.group(2)))
             ctx.count("specification_checks_on_returned_doubles", int(m.group(3)))
-            op = r.op.split()[0]
+            op = opname(r.op)
             for tg in filter(None, m.group(4).split(",")):
                 ctx.hist("model_tags", f"{op}:{tg}")
             ctx.hist("fe_inexact", f"{op}:{'exact' if ' I=0' in r.impl else 'inexact' if ' I=1' in r.impl else 'exception'}")
@@ -419,6 +590,8 @@ def build(ctx):
 
 def nontrivial(line):
     try:
+        steps = split_steps(line)
+        if len(steps) > 1: return True                    # a history: re-used objects
         head, n, d, extra, sizes, rows = parse_op(line)
         const = any(all(r[j] == rows[0][j] for r in rows) for j in range(d))
         return len(sizes) > 1 or const or d > n
@@ -447,17 +620,23 @@ def run(ctx):
     per = 400 if ctx.quick else 4000
     lines = list(corpus)
     for op in ("meanvar", "unitvar", "unitint", "linreg", "whiten", "zca", "pca", "lda", "wlda", "fisher"):
-        lines += [gen_case(r, ctx, op) for _ in range(per)]
+        lines += [gen_scaled(r, ctx, gen_case(r, ctx, op)) for _ in range(per)]
         for _ in range(3 if ctx.quick else 30):
             allp = gen_all_partitions(r, ctx, op)
             ctx.count("all_partition_families", 1)
             lines += allp
+    nh = 120 if ctx.quick else 1200
+    for fam in sorted(FAMILIES):
+        hs = [gen_history(r, ctx, fam) for _ in range(nh * (3 if fam == "pca" else 1))]
+        ctx.count("histories", len(hs))
+        lines += hs
     for l in lines:
-        ctx.hist("op_mix", l.split()[0])
-        try:
-            ctx.hist("batches", len(parse_op(l)[4]))
-        except Exception:
-            pass
+        for st in split_steps(l):
+            ctx.hist("op_mix", opname(st))
+            try:
+                ctx.hist("batches", len(parse_op(st)[4]))
+            except Exception:
+                pass
     ctx.cov["evaluations"] = len(lines)
     ctx.cov["distinct_nontrivial"] = len({l for l in lines if nontrivial(l)})
     ctx.sample({"op": lines[len(lines) // 2]})
